@@ -237,7 +237,6 @@ func extractOf2(v ssa.Value, i int) *ssa.Extract {
 	return nil
 }
 
-
 // ssaEntriesFor converts the SSA reading into the entries the dispatch-table rule judges. ok is
 // false when the SSA reading itself has gaps (then the statement-form findings stand).
 func ssaEntriesFor(S *Streams, typ, method string, closure bool, ifaceOf map[*types.Named]*GenType, mgrMethod map[*types.Func]*GenType) ([]*dispatchEntry, bool) {
